@@ -375,4 +375,52 @@ theorem build_bytes_valid (fmt : R → List UInt8) (env : Env R) (hd : env.decry
       subst hser
       exact ⟨hl2, off, txt, rest, hsp, hdrop⟩
 
+/-! ### Non-vacuity: a one-page document, built, opened and resolved by the model inside the kernel -/
+
+/-- a page with a media box, a rotation, empty resources and the content stream `BT ET` -/
+def samplePage : PageB (List UInt8) :=
+  ⟨[], [([77, 101, 100, 105, 97, 66, 111, 120], .arr [.int 0, .int 0, .int 612, .int 792])], [([82, 111, 116, 97, 116, 101], .int 90)],
+   .dict [], [66, 84, 10, 69, 84, 10]⟩
+
+def sampleEnv : Env (List UInt8) :=
+  { parseReal := fun t => some t, resolveLen := fun _ _ => .err, allowMissingEndobj := false, decrypt := none, fileOffset := 0 }
+
+def sampleDec : Dict (List UInt8) → List UInt8 → Out (List UInt8) :=
+  fun d raw => match dictGet d kFilter with | none => .ok raw | some _ => .err
+
+example : NoFilter sampleDec := by intro d raw h; simp [sampleDec, h]
+
+/-- the payload hypotheses of the theorems hold for it -/
+example : PageOK id sampleEnv.parseReal samplePage where
+  other_ser := by simp [samplePage, SerialisableE]
+  other_wf := by simp [samplePage, PdfSyntax.WFE]
+  other_nd := by simp [samplePage, PdfSyntax.keysOf]
+  other_depth := by simp [samplePage, PdfSyntax.vdepthE]
+  boxes_ser := by simp [samplePage, SerialisableE, Serialisable, SerialisableL]
+  boxes_wf := by simp only [samplePage, PdfSyntax.WFE, PdfSyntax.WF, PdfSyntax.WFL, and_true]; decide
+  boxes_depth := by simp [samplePage, PdfSyntax.vdepthE, PdfSyntax.vdepth, PdfSyntax.vdepthL]
+  rest_ser := by simp [samplePage, SerialisableE, Serialisable]
+  rest_wf := by simp only [samplePage, PdfSyntax.WFE, PdfSyntax.WF, and_true]; decide
+  rest_depth := by simp [samplePage, PdfSyntax.vdepthE, PdfSyntax.vdepth]
+  res := .direct _ (by simp [samplePage, Serialisable, SerialisableE]) (by simp [samplePage, PdfSyntax.WF, PdfSyntax.WFE, PdfSyntax.keysOf])
+    (by simp [samplePage, PdfSyntax.vdepth, PdfSyntax.vdepthE, maxDepth])
+  content := by simp [samplePage]
+
+/-- the model builds the 504-byte file, opens it (header at 0, table of 9 slots) and resolves the content stream of
+    the page (object 4) to a stream whose `file_range` is the six bytes `BT\nET\n`, and the catalog (object 5) to a
+    dictionary of three entries -/
+example : (match buildB id [samplePage] none with
+    | .ok bs =>
+      bs.length == 504 &&
+      (match openB sampleEnv 1600 sampleDec 2 bs with
+        | .ok (st, t, _) => st == 0 && t.length == 9 &&
+          (match resolveB sampleEnv 1600 sampleDec 3 bs st t 4 with
+            | .ok (.stream _ a b) => (bs.drop a).take (b - a) == [66, 84, 10, 69, 84, 10]
+            | _ => false) &&
+          (match resolveB sampleEnv 1600 sampleDec 3 bs st t 5 with
+            | .ok (.plain (.dict d)) => d.length == 3
+            | _ => false)
+        | _ => false)
+    | _ => false) = true := by decide +kernel
+
 end C10Bytes
